@@ -458,3 +458,56 @@ _reg6b = register
 def register(R):  # noqa: F811
     _reg6b(R)
     register_subtree(R)
+
+
+# =========================================================================== CutByFurcationOrder._enter (the rule the order cut designates)
+def register_order_cut(R):
+    from contracts.C09 import node_obj
+    from contracts.common import col, nof, sym_tree
+    from pyvc.npmodels import count_true  # noqa: F401
+
+    TT = "swcgeom/transforms/tree.py"
+
+    def setup(has_parent):
+        def f(S):
+            from swcgeom.transforms.tree import CutByFurcationOrder
+
+            t = sym_tree(S, "t")
+            n = node_obj(S, t)
+            S.assume(z3.And(to_z3(n.fields["idx"], "int") >= 0, to_z3(n.fields["idx"], "int") < nof(t)))
+            return dict(self=S.obj(CutByFurcationOrder, max_furcation_order=S.int("kmax")), n=n, parent_level=S.int("plevel") if has_parent else None)
+
+        return f
+
+    def post(E, v, o):
+        res = v["result"]
+        if not (isinstance(res, tuple) and len(res) == 2):
+            return False
+        level, flag = res
+        node = o["n"]
+        t = node.fields["attach"]
+        me = z3.Select(col(t, "id").arr, to_z3(node.fields["idx"], "int"))
+        # number of rows naming this node as parent, through the counting function the code's mask produced
+        cnts = [f for f, mask in E.ghost.get("cnt-functions", [])]
+        kmax = to_z3(o["self"].fields["max_furcation_order"], "int")
+        if o["parent_level"] is None:
+            want = z3.IntVal(0)
+        else:
+            if len(cnts) != 1:
+                return False
+            is_furc = cnts[0](nof(t)) > 1
+            want = z3.If(is_furc, to_z3(o["parent_level"], "int") + 1, to_z3(o["parent_level"], "int"))
+        return z3.And(to_z3(level, "int") == want, to_z3(E.truth(flag), "bool") == (want >= kmax))
+
+    R.add(f"{TT}:CutByFurcationOrder._enter", prop="C06",
+          variants={"start-node": setup(False), "below-a-parent": setup(True)},
+          ensures=[("level-counts-furcations-from-the-start-node-and-removal-iff-level-reaches-the-order", post)],
+          notes="`is furcation` = more than one row names the node's id as parent (Node.is_furcation, proved in C08)")
+
+
+_reg6c = register
+
+
+def register(R):  # noqa: F811
+    _reg6c(R)
+    register_order_cut(R)
